@@ -227,12 +227,17 @@ impl Nfa {
         match expr.kind() {
             HirKind::Empty => Ok(accept),
 
-            HirKind::Literal(Literal(l)) => Ok(l.iter().rev().fold(accept, |accept, &b| {
-                let s0 = self.new_state(StateKind::Neither);
-                self.push_edge(s0, Test::byte(b), accept);
-                self.push_edge(s0, Other, reject);
-                s0
-            })),
+            // The literal is a UTF-8 byte string while class edges are ranges of scalar values:
+            // decode it, so that literals and classes live in the same alphabet (code points).
+            HirKind::Literal(Literal(l)) => match std::str::from_utf8(l) {
+                Ok(text) => Ok(text.chars().rev().fold(accept, |accept, c| {
+                    let s0 = self.new_state(StateKind::Neither);
+                    self.push_edge(s0, Test::char(c), accept);
+                    self.push_edge(s0, Other, reject);
+                    s0
+                })),
+                Err(_) => Err(NfaConstructionError::ByteRegex),
+            },
 
             HirKind::Class(class) => {
                 match *class {
